@@ -96,12 +96,24 @@ Print Assumptions C14_checked_threads.
        against a transport that frames its input with [decode] (self-delimiting on the request
        frames) and answers in arrival order with [reply_of]                                    *)
 
+(* every write, read, transport call of Close / Connect (ATouch) and release is made by the caller
+   that holds the mutex; the mutex is free whenever it is acquired *)
 Theorem C14_steps_by_holder :
   forall reply_of decode reqs l s i a s',
   creach reply_of decode reqs l s -> cstep reply_of decode s i a s' ->
   match a with AAcq _ => c_owner s = None | _ => c_owner s = Some i end.
 Proof. exact steps_by_holder. Qed.
 Print Assumptions C14_steps_by_holder.
+
+(* one at a time (what the flag "serialised" of the supporting run observes on the transport):
+   while a caller is inside Do / Close / Connect, every write, read, transport call of Close or
+   Connect and release is made by that caller, and nobody acquires *)
+Theorem C14_one_at_a_time :
+  forall reply_of decode reqs l s i j a s',
+  creach reply_of decode reqs l s -> c_owner s = Some i -> cstep reply_of decode s j a s' ->
+  j = i /\ match a with AAcq _ => False | _ => True end.
+Proof. exact only_holder_steps. Qed.
+Print Assumptions C14_one_at_a_time.
 
 Theorem C14_wire_whole_frames_in_lock_order :
   forall reply_of decode (wf : frm -> Prop),
